@@ -237,7 +237,7 @@ def c14(out):
 
 
 # --------------------------------------------------------------------- C15 / C16 / C17 (allocator monitor)
-WRAP = ["-Wl,--wrap=malloc,--wrap=calloc,--wrap=realloc,--wrap=free,--wrap=posix_memalign,--wrap=aligned_alloc,--wrap=memalign"]
+WRAP = ["-Wl,--wrap=malloc,--wrap=calloc,--wrap=realloc,--wrap=free,--wrap=posix_memalign,--wrap=aligned_alloc,--wrap=memalign,--wrap=mmap,--wrap=mmap64,--wrap=munmap"]
 
 
 def _life(out, prop, mode, variants):
@@ -266,12 +266,18 @@ def c16(out):
                 "{6 prior contents of the caller's handle: zero, 0xFF, 0xA5, random, stale copy of a live handle with ctx -> harness decoy, stale copy with ctx -> PROT_NONE}; repeated with fresh random bytes. "
                 "After the injected failure: init must return 0, leave no live block, and a battery of every other API function plus cleanup twice must return 0 without allocator events, without freeing or "
                 "writing the decoy and without faulting; a live bystander object must be unaffected. Every second sweep runs on an allocator that only guarantees 8-byte alignment; "
-                "the enumeration is repeated on alternative compile-time paths (32-bit words, byte-order-neutral, unaligned off, no AVX2).")
+                "the enumeration is repeated on alternative compile-time paths (32-bit words, byte-order-neutral, unaligned off, no AVX2) and in cold processes "
+                "(one freshly forked process per case, the faulted init is the first library call the process ever makes).")
     reps = n(out, 12, 400)
     v = [("prod", 108 * reps), ("asan", 108 * max(2, reps // 4)), ("prod+W32", 108 * 2), ("clang+Os+NEUTRAL", 108 * 2), ("prod+UNAL0+NOAVX2", 108 * 2)]
     if out.tier == "thorough":
         v += [("clang", 108 * 50), ("prod+NOSIMD", 108 * 10), ("prod+W32", 108 * 10), ("clang+W32+UNAL0", 108 * 10), ("prod+O0", 108 * 10), ("prod+NATIVE+NDEBUG", 108 * 10)]
     _life(out, "C16", "c16", v)
+    # cold processes: every case is a freshly forked process in which no library function has run before the faulted init
+    # (6 init functions x 3 caps x 4 prior contents x request 1..3 = 216 cases per sweep)
+    for vname, cases in [("prod", n(out, 216, 216 * 10)), ("asan", n(out, 216, 216 * 2))]:
+        exe = build_driver("drv_life", ["drv_life.c", "allocmon.c"] + HIST, vname, extra=WRAP)
+        run_sharded(out, exe, ["--prop", "C16", "--mode", "c16cold"], vname, cases, label="cold-process")
     out.exhaustive = True
     out.observed["enumeration"] = "case index mod 108 = (init function 6) x (back end 3) x (prior class 6); every allocation request 1..N of the init is failed inside each case"
     out.assumptions += ["allocation points are those observed by the monitor's dry run of each init on this build"]
